@@ -720,6 +720,487 @@ example : ∃ nx ny : ℝ, normalAux true tolR (.par "x" (.const [0, 0]) (.const
   exact (par_normal_perp tolR "x" (.const [0, 0]) (.const [1, 2]) (.const [3, 1]) [] 0 0 1 2 3 1 0 (1 / 2) nx ny
     (fun _ => rfl) (fun _ => rfl) (fun _ => rfl) (by norm_num) hn).1 (by simp only [tolR]; norm_num) (by simp only [tolR]; norm_num)
 
+/-! ### tolerance: points NEAR an edge get that edge's normal -/
+
+theorem closeW_near (τ : Tol K) (a i w : K) (h : |a - i| ≤ τ.batol + τ.rtol * |i|) : closeW τ a i w = w := by
+  have : isclose τ.bary a i = true := by rw [isclose_iff]; simpa [Tol.bary] using h
+  simp [closeW, this]
+
+/-- the parallelogram normal depends on the point only through the `isclose` flags of its barycentric coordinates -/
+theorem par_normal_congr (o' : Bool) (τ : Tol K) (v : String) (o c1 c2 : PFun K) (ρ : Env K)
+    (ox oy ax ay bx cy s t s' t' : K)
+    (ho : ∀ q, o.f ([(v, q)] ++ ρ) = [ox, oy]) (h1 : ∀ q, c1.f ([(v, q)] ++ ρ) = [ax, ay])
+    (h2 : ∀ q, c2.f ([(v, q)] ++ ρ) = [bx, cy])
+    (hdet : (ax - ox) * (cy - oy) - (ay - oy) * (bx - ox) ≠ 0)
+    (hx : closeW τ s 0 (-1) + closeW τ s 1 1 = closeW τ s' 0 (-1) + closeW τ s' 1 1)
+    (hy : closeW τ t 0 (-1) + closeW τ t 1 1 = closeW τ t' 0 (-1) + closeW τ t' 1 1) :
+    normalAux o' τ (.par v o c1 c2) [(v, [ox + s * (ax - ox) + t * (bx - ox), oy + s * (ay - oy) + t * (cy - oy)])] ρ =
+    normalAux o' τ (.par v o c1 c2) [(v, [ox + s' * (ax - ox) + t' * (bx - ox), oy + s' * (ay - oy) + t' * (cy - oy)])] ρ := by
+  have hsol : ∀ a b : K, solveLgs (ox + a * (ax - ox) + b * (bx - ox) - ox) (oy + a * (ay - oy) + b * (cy - oy) - oy)
+      (ax - ox) (ay - oy) (bx - ox) (cy - oy) = (a, b) :=
+    fun a b => solveLgs_fst _ _ _ _ _ _ a b hdet (by ring) (by ring)
+  simp only [normalAux, get_single, ho, h1, h2, parRaw, hsol, hx, hy]
+
+/-- **A point within the tolerance of an edge gets that edge's normal (parallelogram).** If the barycentric coordinate
+    `s` of a point is within `BARY_ATOL` of 0 (resp. within `BARY_ATOL + rtol` of 1) and `t` is farther than the
+    tolerance from 0 and 1 — the situation of a float32 boundary sample on the open edge — then `normal` returns
+    exactly the vector it returns at the exact edge point with the same `t` (which `par_normal_outward` proves to be
+    the outward unit normal and `par_normal_perp` proves perpendicular to the edge).  Symmetric in `s ↔ t`. -/
+theorem par_normal_near_edge (o' : Bool) (τ : Tol K) (hτ : τ.ok) (hsmall : τ.small) (v : String) (o c1 c2 : PFun K) (ρ : Env K)
+    (ox oy ax ay bx cy s t : K)
+    (ho : ∀ q, o.f ([(v, q)] ++ ρ) = [ox, oy]) (h1 : ∀ q, c1.f ([(v, q)] ++ ρ) = [ax, ay])
+    (h2 : ∀ q, c2.f ([(v, q)] ++ ρ) = [bx, cy])
+    (hdet : (ax - ox) * (cy - oy) - (ay - oy) * (bx - ox) ≠ 0) :
+    (|s| ≤ τ.batol →
+      normalAux o' τ (.par v o c1 c2) [(v, [ox + s * (ax - ox) + t * (bx - ox), oy + s * (ay - oy) + t * (cy - oy)])] ρ =
+      normalAux o' τ (.par v o c1 c2) [(v, [ox + 0 * (ax - ox) + t * (bx - ox), oy + 0 * (ay - oy) + t * (cy - oy)])] ρ) ∧
+    (|s - 1| ≤ τ.batol + τ.rtol →
+      normalAux o' τ (.par v o c1 c2) [(v, [ox + s * (ax - ox) + t * (bx - ox), oy + s * (ay - oy) + t * (cy - oy)])] ρ =
+      normalAux o' τ (.par v o c1 c2) [(v, [ox + 1 * (ax - ox) + t * (bx - ox), oy + 1 * (ay - oy) + t * (cy - oy)])] ρ) ∧
+    (|t| ≤ τ.batol →
+      normalAux o' τ (.par v o c1 c2) [(v, [ox + s * (ax - ox) + t * (bx - ox), oy + s * (ay - oy) + t * (cy - oy)])] ρ =
+      normalAux o' τ (.par v o c1 c2) [(v, [ox + s * (ax - ox) + 0 * (bx - ox), oy + s * (ay - oy) + 0 * (cy - oy)])] ρ) ∧
+    (|t - 1| ≤ τ.batol + τ.rtol →
+      normalAux o' τ (.par v o c1 c2) [(v, [ox + s * (ax - ox) + t * (bx - ox), oy + s * (ay - oy) + t * (cy - oy)])] ρ =
+      normalAux o' τ (.par v o c1 c2) [(v, [ox + s * (ax - ox) + 1 * (bx - ox), oy + s * (ay - oy) + 1 * (cy - oy)])] ρ) := by
+  have hb := hτ.2.2; have hr := hτ.2.1
+  unfold Tol.small at hsmall
+  -- flags of a coordinate near 0 / near 1 / exactly 0 / exactly 1
+  have near0 : ∀ a : K, |a| ≤ τ.batol → closeW τ a 0 (-1) + closeW τ a 1 1 = -1 := fun a h => by
+    rw [closeW_near τ a 0 (-1) (by simpa using h), closeW_far1 τ a 1 (by have := le_abs_self a; linarith)]; ring
+  have near1 : ∀ a : K, |a - 1| ≤ τ.batol + τ.rtol → closeW τ a 0 (-1) + closeW τ a 1 1 = 1 := fun a h => by
+    rw [closeW_near τ a 1 1 (by simpa using h), closeW_far0 τ a (-1) (by have := neg_abs_le (a - 1); linarith)]; ring
+  have z0 := near0 0 (by simpa using hb)
+  have z1 := near1 1 (by simp; linarith)
+  refine ⟨fun h => ?_, fun h => ?_, fun h => ?_, fun h => ?_⟩
+  · exact par_normal_congr o' τ v o c1 c2 ρ ox oy ax ay bx cy s t 0 t ho h1 h2 hdet (by rw [near0 s h, z0]) rfl
+  · exact par_normal_congr o' τ v o c1 c2 ρ ox oy ax ay bx cy s t 1 t ho h1 h2 hdet (by rw [near1 s h, z1]) rfl
+  · exact par_normal_congr o' τ v o c1 c2 ρ ox oy ax ay bx cy s t s 0 ho h1 h2 hdet rfl (by rw [near0 t h, z0])
+  · exact par_normal_congr o' τ v o c1 c2 ρ ox oy ax ay bx cy s t s 1 ho h1 h2 hdet rfl (by rw [near1 t h, z1])
+
+/-- the triangle normal depends on the point only through its three `isclose` flags -/
+theorem tri_normal_congr (o' : Bool) (τ : Tol K) (v : String) (o c1 c2 : PFun K) (ρ : Env K)
+    (ox oy ax ay bx cy s t s' t' : K)
+    (ho : ∀ q, o.f ([(v, q)] ++ ρ) = [ox, oy]) (h1 : ∀ q, c1.f ([(v, q)] ++ ρ) = [ax, ay])
+    (h2 : ∀ q, c2.f ([(v, q)] ++ ρ) = [bx, cy])
+    (hdet : (ax - ox) * (cy - oy) - (ay - oy) * (bx - ox) ≠ 0)
+    (h3 : closeW τ s 0 1 = closeW τ s' 0 1) (hh1 : closeW τ t 0 1 = closeW τ t' 0 1)
+    (hh2 : closeW τ (s + t) 1 1 = closeW τ (s' + t') 1 1) :
+    normalAux o' τ (.tri v o c1 c2) [(v, [ox + s * (ax - ox) + t * (bx - ox), oy + s * (ay - oy) + t * (cy - oy)])] ρ =
+    normalAux o' τ (.tri v o c1 c2) [(v, [ox + s' * (ax - ox) + t' * (bx - ox), oy + s' * (ay - oy) + t' * (cy - oy)])] ρ := by
+  have hsol : ∀ a b : K, solveLgs (ox + a * (ax - ox) + b * (bx - ox) - ox) (oy + a * (ay - oy) + b * (cy - oy) - oy)
+      (ax - ox) (ay - oy) (bx - ox) (cy - oy) = (a, b) :=
+    fun a b => solveLgs_fst _ _ _ _ _ _ a b hdet (by ring) (by ring)
+  simp only [normalAux, get_single, ho, h1, h2, triRaw, hsol, h3, hh1, hh2]
+
+/-- **A point within the tolerance of an edge gets that edge's normal (triangle)**: near the edge `s = 0`, away from
+    the other two edges, the normal is the one at the exact edge point with the same `t`; likewise for the edge `t = 0`. -/
+theorem tri_normal_near_edge (o' : Bool) (τ : Tol K) (hτ : τ.ok) (v : String) (o c1 c2 : PFun K) (ρ : Env K)
+    (ox oy ax ay bx cy s t : K)
+    (ho : ∀ q, o.f ([(v, q)] ++ ρ) = [ox, oy]) (h1 : ∀ q, c1.f ([(v, q)] ++ ρ) = [ax, ay])
+    (h2 : ∀ q, c2.f ([(v, q)] ++ ρ) = [bx, cy])
+    (hdet : (ax - ox) * (cy - oy) - (ay - oy) * (bx - ox) ≠ 0) :
+    (|s| ≤ τ.batol → τ.batol < t → s + t + τ.batol + τ.rtol < 1 → t + τ.batol + τ.rtol < 1 →
+      normalAux o' τ (.tri v o c1 c2) [(v, [ox + s * (ax - ox) + t * (bx - ox), oy + s * (ay - oy) + t * (cy - oy)])] ρ =
+      normalAux o' τ (.tri v o c1 c2) [(v, [ox + 0 * (ax - ox) + t * (bx - ox), oy + 0 * (ay - oy) + t * (cy - oy)])] ρ) ∧
+    (|t| ≤ τ.batol → τ.batol < s → s + t + τ.batol + τ.rtol < 1 → s + τ.batol + τ.rtol < 1 →
+      normalAux o' τ (.tri v o c1 c2) [(v, [ox + s * (ax - ox) + t * (bx - ox), oy + s * (ay - oy) + t * (cy - oy)])] ρ =
+      normalAux o' τ (.tri v o c1 c2) [(v, [ox + s * (ax - ox) + 0 * (bx - ox), oy + s * (ay - oy) + 0 * (cy - oy)])] ρ) := by
+  have hb := hτ.2.2
+  constructor
+  · intro hs ht hst ht1
+    apply tri_normal_congr o' τ v o c1 c2 ρ ox oy ax ay bx cy s t 0 t ho h1 h2 hdet
+    · rw [closeW_near τ s 0 1 (by simpa using hs), closeW_near τ 0 0 1 (by simpa using hb)]
+    · rfl
+    · rw [closeW_far1 τ (s + t) 1 hst, closeW_far1 τ (0 + t) 1 (by linarith)]
+  · intro ht hs hst hs1
+    apply tri_normal_congr o' τ v o c1 c2 ρ ox oy ax ay bx cy s t s 0 ho h1 h2 hdet
+    · rfl
+    · rw [closeW_near τ t 0 1 (by simpa using ht), closeW_near τ 0 0 1 (by simpa using hb)]
+    · rw [closeW_far1 τ (s + t) 1 hst, closeW_far1 τ (s + 0) 1 (by linarith)]
+
+
+/-! ### closed-form step bound for polygons -/
+
+/-- signs of the two barycentric derivatives along the (scaled) coded vector -/
+theorem par_alg_signs (d1x d1y d2x d2y l1 l2 wx wy : K) (hdet : d1x * d2y - d1y * d2x ≠ 0)
+    (hl1 : 0 < l1) (hl1' : l1 * l1 = (-d1y) * (-d1y) + d1x * d1x)
+    (hl2 : 0 < l2) (hl2' : l2 * l2 = (-d2y) * (-d2y) + d2x * d2x)
+    (hwx : wx = -1 ∨ wx = 0 ∨ wx = 1) (hwy : wy = -1 ∨ wy = 0 ∨ wy = 1)
+    (vx vy : K)
+    (hvx : vx = ((-d1y / l1) * wy + (-(-d2y / l2)) * wx) * sgn (d1x * d2y - d1y * d2x))
+    (hvy : vy = ((d1x / l1) * wy + (-(d2x / l2)) * wx) * sgn (d1x * d2y - d1y * d2x))
+    (L : K) (hL : 0 < L) :
+    (wx = -1 → (d2y * (vx / L) - d2x * (vy / L)) / (d1x * d2y - d1y * d2x) < 0) ∧
+    (wx = 1 → 0 < (d2y * (vx / L) - d2x * (vy / L)) / (d1x * d2y - d1y * d2x)) ∧
+    (wy = -1 → (d1x * (vy / L) - d1y * (vx / L)) / (d1x * d2y - d1y * d2x) < 0) ∧
+    (wy = 1 → 0 < (d1x * (vy / L) - d1y * (vx / L)) / (d1x * d2y - d1y * d2x)) := by
+  set det := d1x * d2y - d1y * d2x with hdetdef
+  set sg := sgn det with hsg
+  have hκ : 0 < sg / det := by
+    have h1 := sgn_mul_self_pos det hdet
+    have h2 : 0 < det * det := mul_self_pos.mpr hdet
+    have : sg / det = (sg * det) / (det * det) := by field_simp
+    rw [this]; exact div_pos h1 h2
+  set P := d1x * d2x + d1y * d2y with hP
+  have hcs : |P| < l1 * l2 := by
+    apply cs_strict d1x d1y d2x d2y l1 l2 hl1 hl2 (by rw [hl1']; ring) (by rw [hl2']; ring) hdet
+  have hcs' : |P| < l2 * l1 := by rwa [mul_comm]
+  have e1 : (d1x * d1x + d1y * d1y) / l1 = l1 := by
+    rw [div_eq_iff hl1.ne']; rw [hl1']; ring
+  have e2 : (d2x * d2x + d2y * d2y) / l2 = l2 := by
+    rw [div_eq_iff hl2.ne']; rw [hl2']; ring
+  -- the two directional derivatives (before division by L)
+  have Es : (d2y * vx - d2x * vy) / det = sg / det * (wx * l2 - wy * P / l1) := by
+    have : d2y * vx - d2x * vy = sg * (wx * ((d2x * d2x + d2y * d2y) / l2) - wy * P / l1) := by
+      rw [hvx, hvy]; ring
+    rw [this, e2]; ring
+  have Et : (d1x * vy - d1y * vx) / det = sg / det * (wy * l1 - wx * P / l2) := by
+    have : d1x * vy - d1y * vx = sg * (wy * ((d1x * d1x + d1y * d1y) / l1) - wx * P / l2) := by
+      rw [hvx, hvy]; ring
+    rw [this, e1]; ring
+  have awx := abs_le_one_of_tri wx hwx
+  have awy := abs_le_one_of_tri wy hwy
+  have Bs_neg : wx = -1 → wx * l2 - wy * P / l1 < 0 := fun h => by rw [h]; exact sel_neg wy P l1 l2 hl1 awy hcs
+  have Bs_pos : wx = 1 → 0 < wx * l2 - wy * P / l1 := fun h => by rw [h]; exact sel_pos wy P l1 l2 hl1 awy hcs
+  have Bt_neg : wy = -1 → wy * l1 - wx * P / l2 < 0 := fun h => by rw [h]; exact sel_neg wx P l2 l1 hl2 awx hcs'
+  have Bt_pos : wy = 1 → 0 < wy * l1 - wx * P / l2 := fun h => by rw [h]; exact sel_pos wx P l2 l1 hl2 awx hcs'
+  have hDs : (d2y * (vx / L) - d2x * (vy / L)) / det = sg / det * (wx * l2 - wy * P / l1) / L := by
+    rw [← Es]; field_simp
+  have hDt : (d1x * (vy / L) - d1y * (vx / L)) / det = sg / det * (wy * l1 - wx * P / l2) / L := by
+    rw [← Et]; field_simp
+  rw [hDs, hDt]
+  refine ⟨fun h => ?_, fun h => ?_, fun h => ?_, fun h => ?_⟩
+  · exact div_neg_of_neg_of_pos (mul_neg_of_pos_of_neg hκ (Bs_neg h)) hL
+  · exact div_pos (mul_pos hκ (Bs_pos h)) hL
+  · exact div_neg_of_neg_of_pos (mul_neg_of_pos_of_neg hκ (Bt_neg h)) hL
+  · exact div_pos (mul_pos hκ (Bt_pos h)) hL
+
+/-- a unit vector changes a barycentric coordinate by at most `ℓ/|det|` per unit step (Cauchy–Schwarz) -/
+theorem dir_bound (a b nx ny l det : K) (hl : 0 < l) (hl' : l * l = a * a + b * b) (hn : nx * nx + ny * ny = 1)
+    (hdet : det ≠ 0) : |(a * nx + b * ny) / det| ≤ l / |det| := by
+  rw [abs_div]
+  apply div_le_div_of_nonneg_right _ (abs_pos.mpr hdet).le
+  apply abs_le_of_sq_le_sq _ hl.le
+  have : (a * nx + b * ny) ^ 2 + (a * ny - b * nx) ^ 2 = l ^ 2 := by
+    have : l ^ 2 = (a * a + b * b) * (nx * nx + ny * ny) := by rw [hn, ← hl']; ring
+    rw [this]; ring
+  nlinarith [sq_nonneg (a * ny - b * nx)]
+
+/-- a constraint `g ≥ 0` survives the inward step if its edge is selected (derivative negative) or the step is
+    at most `g / B`, `B` a bound on the derivative -/
+theorem edge_keep (g0 D B ε : K) (h0 : 0 ≤ g0) (hε : 0 < ε) (hB : |D| ≤ B) (h : D < 0 ∨ ε * B ≤ g0) :
+    0 ≤ g0 + (-ε) * D := by
+  rcases h with h | h
+  · nlinarith
+  · have h1 : D ≤ |D| := le_abs_self D
+    nlinarith
+
+
+theorem flags_near0 (τ : Tol K) (hsmall : τ.small) (a : K) (h : |a| ≤ τ.batol) :
+    closeW τ a 0 (-1) + closeW τ a 1 1 = -1 := by
+  unfold Tol.small at hsmall
+  have hb : 0 ≤ τ.batol := le_trans (abs_nonneg a) h
+  rw [closeW_near τ a 0 (-1) (by simpa using h), closeW_far1 τ a 1 (by have := le_abs_self a; linarith)]; ring
+
+theorem flags_near1 (τ : Tol K) (hτ : τ.ok) (hsmall : τ.small) (a : K) (h : |a - 1| ≤ τ.batol + τ.rtol) :
+    closeW τ a 0 (-1) + closeW τ a 1 1 = 1 := by
+  unfold Tol.small at hsmall
+  have hb := hτ.2.2
+  rw [closeW_near τ a 1 1 (by simpa using h), closeW_far0 τ a (-1) (by have := neg_abs_le (a - 1); linarith)]; ring
+
+/-- **Closed-form step bound (parallelogram).** With `ℓ₁ = ‖corner_1 − origin‖`, `ℓ₂ = ‖corner_2 − origin‖` (any positive
+    witnesses of the squared lengths) the quantity `s·|det|/ℓ₂` is the Euclidean distance from the point to the line of the
+    edge `s = 0`, etc.  The coded normal at a boundary point is outward for EVERY step `ε > 0` that is at most the distance
+    to each edge line that is not within the tolerance of the point (edges within the tolerance are the selected ones):
+    `p + εn` is outside and `p − εn` is inside the denoted set. -/
+theorem par_normal_outward_bound (hsq : SqrtOk K) (τ : Tol K) (hτ : τ.ok) (hsmall : τ.small)
+    (v : String) (o c1 c2 : PFun K) (ρ : Env K) (ox oy ax ay bx cy s t l1 l2 ε : K)
+    (ho : ∀ q, o.f ([(v, q)] ++ ρ) = [ox, oy]) (h1 : ∀ q, c1.f ([(v, q)] ++ ρ) = [ax, ay])
+    (h2 : ∀ q, c2.f ([(v, q)] ++ ρ) = [bx, cy])
+    (hdet : (ax - ox) * (cy - oy) - (ay - oy) * (bx - ox) ≠ 0)
+    (hs : In01 s) (ht : In01 t) (hb : s = 0 ∨ s = 1 ∨ t = 0 ∨ t = 1)
+    (hl1 : 0 < l1) (hl1' : l1 * l1 = (ax - ox) * (ax - ox) + (ay - oy) * (ay - oy))
+    (hl2 : 0 < l2) (hl2' : l2 * l2 = (bx - ox) * (bx - ox) + (cy - oy) * (cy - oy))
+    (hε : 0 < ε)
+    (c1' : s ≤ τ.batol ∨ ε * l2 ≤ s * |(ax - ox) * (cy - oy) - (ay - oy) * (bx - ox)|)
+    (c2' : 1 - s ≤ τ.batol + τ.rtol ∨ ε * l2 ≤ (1 - s) * |(ax - ox) * (cy - oy) - (ay - oy) * (bx - ox)|)
+    (c3' : t ≤ τ.batol ∨ ε * l1 ≤ t * |(ax - ox) * (cy - oy) - (ay - oy) * (bx - ox)|)
+    (c4' : 1 - t ≤ τ.batol + τ.rtol ∨ ε * l1 ≤ (1 - t) * |(ax - ox) * (cy - oy) - (ay - oy) * (bx - ox)|) :
+    ∃ n, normalAux true τ (.par v o c1 c2)
+        [(v, [ox + s * (ax - ox) + t * (bx - ox), oy + s * (ay - oy) + t * (cy - oy)])] ρ = some n ∧
+      ¬ mem (.par v o c1 c2) [(v, moved [ox + s * (ax - ox) + t * (bx - ox), oy + s * (ay - oy) + t * (cy - oy)] n ε)] ρ ∧
+      mem (.par v o c1 c2) [(v, moved [ox + s * (ax - ox) + t * (bx - ox), oy + s * (ay - oy) + t * (cy - oy)] n (-ε))] ρ := by
+  obtain ⟨nx, ny, _, _, hfin, hunit, _⟩ := par_core hsq τ hτ hsmall ox oy ax ay bx cy s t hdet hs ht hb
+  obtain ⟨e1, e2⟩ := finish2_some _ _ nx ny hfin
+  have hsol : solveLgs (ox + s * (ax - ox) + t * (bx - ox) - ox) (oy + s * (ay - oy) + t * (cy - oy) - oy)
+      (ax - ox) (ay - oy) (bx - ox) (cy - oy) = (s, t) :=
+    solveLgs_fst _ _ _ _ _ _ s t hdet (by ring) (by ring)
+  simp only [parRaw, parNormalDir, unit2, hsol] at e1 e2
+  -- lengths inside the code
+  have hd1 : 0 < (-(ay - oy)) * (-(ay - oy)) + (ax - ox) * (ax - ox) := by
+    have : (-(ay - oy)) * (-(ay - oy)) + (ax - ox) * (ax - ox) = l1 * l1 := by rw [hl1']; ring
+    rw [this]; exact mul_pos hl1 hl1
+  have hd2 : 0 < (-(cy - oy)) * (-(cy - oy)) + (bx - ox) * (bx - ox) := by
+    have : (-(cy - oy)) * (-(cy - oy)) + (bx - ox) * (bx - ox) = l2 * l2 := by rw [hl2']; ring
+    rw [this]; exact mul_pos hl2 hl2
+  obtain ⟨hk1, hk1'⟩ := sqrt_pos_of_pos hsq _ hd1
+  obtain ⟨hk2, hk2'⟩ := sqrt_pos_of_pos hsq _ hd2
+  obtain ⟨wx3, wx0, wx1⟩ := parW_facts τ hτ hsmall s
+  obtain ⟨wy3, wy0, wy1⟩ := parW_facts τ hτ hsmall t
+  set vx := ((-(ay - oy) / HasSqrt.sqrt ((-(ay - oy)) * (-(ay - oy)) + (ax - ox) * (ax - ox))) *
+      (closeW τ t 0 (-1) + closeW τ t 1 1) +
+      (-(-(cy - oy) / HasSqrt.sqrt ((-(cy - oy)) * (-(cy - oy)) + (bx - ox) * (bx - ox)))) *
+      (closeW τ s 0 (-1) + closeW τ s 1 1)) * sgn ((ax - ox) * (cy - oy) - (ay - oy) * (bx - ox)) with hvx
+  set vy := (((ax - ox) / HasSqrt.sqrt ((-(ay - oy)) * (-(ay - oy)) + (ax - ox) * (ax - ox))) *
+      (closeW τ t 0 (-1) + closeW τ t 1 1) +
+      (-((bx - ox) / HasSqrt.sqrt ((-(cy - oy)) * (-(cy - oy)) + (bx - ox) * (bx - ox)))) *
+      (closeW τ s 0 (-1) + closeW τ s 1 1)) * sgn ((ax - ox) * (cy - oy) - (ay - oy) * (bx - ox)) with hvy
+  have hL0 := (hsq (vx * vx + vy * vy) (by nlinarith [mul_self_nonneg vx, mul_self_nonneg vy])).1
+  have hL : 0 < HasSqrt.sqrt (vx * vx + vy * vy) := by
+    refine lt_of_le_of_ne hL0 (fun h => ?_)
+    rw [← h] at e1 e2
+    rw [e1, e2] at hunit; simp at hunit
+  obtain ⟨sA, sB, sC, sD⟩ := par_alg_signs (ax - ox) (ay - oy) (bx - ox) (cy - oy) _ _ _ _ hdet hk1 hk1' hk2 hk2'
+    wx3 wy3 vx vy rfl rfl _ hL
+  rw [← e1, ← e2] at sA sB sC sD
+  set det := (ax - ox) * (cy - oy) - (ay - oy) * (bx - ox) with hdetdef
+  set Ds := ((cy - oy) * nx - (bx - ox) * ny) / det with hDs
+  set Dt := ((ax - ox) * ny - (ay - oy) * nx) / det with hDt
+  have hadet : 0 < |det| := abs_pos.mpr hdet
+  have bS : |Ds| ≤ l2 / |det| := by
+    have := dir_bound (cy - oy) (-(bx - ox)) nx ny l2 det hl2 (by rw [hl2']; ring) hunit hdet
+    have e : ((cy - oy) * nx + -(bx - ox) * ny) / det = Ds := by rw [hDs]; ring
+    rwa [e] at this
+  have bT : |Dt| ≤ l1 / |det| := by
+    have := dir_bound (-(ay - oy)) (ax - ox) nx ny l1 det hl1 (by rw [hl1']; ring) hunit hdet
+    have e : (-(ay - oy) * nx + (ax - ox) * ny) / det = Dt := by rw [hDt]; ring
+    rwa [e] at this
+  have conv : ∀ g l : K, ε * l ≤ g * |det| → ε * (l / |det|) ≤ g := fun g l h => by
+    rw [← mul_div_assoc, div_le_iff₀ hadet]; exact h
+  -- the four constraints after the inward step
+  have k1 : 0 ≤ s + (-ε) * Ds := edge_keep s Ds _ ε hs.1 hε bS
+    (c1'.imp (fun h => sA (flags_near0 τ hsmall s (by rw [abs_of_nonneg hs.1]; exact h))) (conv s l2))
+  have k2 : 0 ≤ (1 - s) + (-ε) * (-Ds) := edge_keep (1 - s) (-Ds) _ ε (by linarith [hs.2]) hε (by rwa [abs_neg])
+    (c2'.imp (fun h => by
+      have := sB (flags_near1 τ hτ hsmall s (by rw [abs_sub_comm, abs_of_nonneg (by linarith [hs.2])]; exact h))
+      linarith) (conv (1 - s) l2))
+  have k3 : 0 ≤ t + (-ε) * Dt := edge_keep t Dt _ ε ht.1 hε bT
+    (c3'.imp (fun h => sC (flags_near0 τ hsmall t (by rw [abs_of_nonneg ht.1]; exact h))) (conv t l1))
+  have k4 : 0 ≤ (1 - t) + (-ε) * (-Dt) := edge_keep (1 - t) (-Dt) _ ε (by linarith [ht.2]) hε (by rwa [abs_neg])
+    (c4'.imp (fun h => by
+      have := sD (flags_near1 τ hτ hsmall t (by rw [abs_sub_comm, abs_of_nonneg (by linarith [ht.2])]; exact h))
+      linarith) (conv (1 - t) l1))
+  refine ⟨[nx, ny], by simp only [normalAux, get_single, ho, h1, h2]; exact hfin, ?_, ?_⟩
+  all_goals
+    have key : ∀ e : K, solveLgs (ox + s * (ax - ox) + t * (bx - ox) + e * nx - ox)
+        (oy + s * (ay - oy) + t * (cy - oy) + e * ny - oy) (ax - ox) (ay - oy) (bx - ox) (cy - oy) =
+        (s + e * Ds, t + e * Dt) := by
+      intro e
+      have e1 : ox + s * (ax - ox) + t * (bx - ox) + e * nx - ox = (s * (ax - ox) + t * (bx - ox)) + e * nx := by ring
+      have e2 : oy + s * (ay - oy) + t * (cy - oy) + e * ny - oy = (s * (ay - oy) + t * (cy - oy)) + e * ny := by ring
+      rw [e1, e2, solveLgs_step, solveLgs_fst _ _ _ _ _ _ s t hdet rfl rfl]
+    simp only [moved, List.zipWith_cons_cons, List.zipWith_nil_right]
+    rw [par_mem_iff v o c1 c2 ρ _ _ ox oy ax ay bx cy (ho _) (h1 _) (h2 _) hdet, key]
+  · rintro ⟨⟨p1, p2⟩, p3, p4⟩
+    rcases hb with h | h | h | h
+    · have := mul_neg_of_pos_of_neg hε (sA (wx0 h)); linarith
+    · have := mul_pos hε (sB (wx1 h)); linarith
+    · have := mul_neg_of_pos_of_neg hε (sC (wy0 h)); linarith
+    · have := mul_pos hε (sD (wy1 h)); linarith
+  · exact ⟨⟨k1, by linarith⟩, k3, by linarith⟩
+
+/-! ### the separation hypothesis from a quantitative margin
+
+  `SegIn / SegOut`: the whole segment `p + e·n`, `|e| < ε₀`, lies inside / outside a set.  They propagate through
+  union / cut / intersection, hold for a disc (interval) whenever the point has distance-margin `≥ ε₀` from the circle
+  line (end points), and they imply every partner clause of `Sep`.  This is the margin the harness computes per point
+  ("no other boundary piece within 2.5ε"). -/
+
+def SegIn (D : Dom K) (v : String) (p n : List K) (ρ : Env K) (ε₀ : K) : Prop :=
+  ∀ e, |e| < ε₀ → mem D [(v, moved p n e)] ρ
+
+def SegOut (D : Dom K) (v : String) (p n : List K) (ρ : Env K) (ε₀ : K) : Prop :=
+  ∀ e, |e| < ε₀ → ¬ mem D [(v, moved p n e)] ρ
+
+/-- propagation through the Boolean operations -/
+theorem seg_bool (a b : Dom K) (v : String) (p n : List K) (ρ : Env K) (ε₀ : K) :
+    (SegIn a v p n ρ ε₀ ∨ SegIn b v p n ρ ε₀ → SegIn (.union a b) v p n ρ ε₀) ∧
+    (SegOut a v p n ρ ε₀ → SegOut b v p n ρ ε₀ → SegOut (.union a b) v p n ρ ε₀) ∧
+    (SegIn a v p n ρ ε₀ → SegIn b v p n ρ ε₀ → SegIn (.inter a b) v p n ρ ε₀) ∧
+    (SegOut a v p n ρ ε₀ ∨ SegOut b v p n ρ ε₀ → SegOut (.inter a b) v p n ρ ε₀) ∧
+    (SegIn a v p n ρ ε₀ → SegOut b v p n ρ ε₀ → SegIn (.cut a b) v p n ρ ε₀) ∧
+    (SegOut a v p n ρ ε₀ ∨ SegIn b v p n ρ ε₀ → SegOut (.cut a b) v p n ρ ε₀) := by
+  refine ⟨?_, ?_, ?_, ?_, ?_, ?_⟩
+  · rintro (h | h) e he
+    · exact Or.inl (h e he)
+    · exact Or.inr (h e he)
+  · intro ha hb e he h; exact h.elim (ha e he) (hb e he)
+  · intro ha hb e he; exact ⟨ha e he, hb e he⟩
+  · rintro (h | h) e he hm
+    · exact h e he hm.1
+    · exact h e he hm.2
+  · intro ha hb e he; exact ⟨ha e he, hb e he⟩
+  · rintro (h | h) e he hm
+    · exact h e he hm.1
+    · exact hm.2 (h e he)
+
+/-- every partner clause of `Sep` follows from `SegOut` / `SegIn` of the partner -/
+theorem sep_of_seg (b : Dom K) (v : String) (p n : List K) (ρ : Env K) (ε₀ : K) :
+    (SegOut b v p n ρ ε₀ → (∀ ε, 0 < ε → ε < ε₀ → ¬ mem b [(v, moved p n ε)] ρ) ∧
+                            (∀ ε, 0 < ε → ε < ε₀ → ¬ mem b [(v, moved p n (-ε))] ρ)) ∧
+    (SegIn b v p n ρ ε₀ → (∀ ε, 0 < ε → ε < ε₀ → mem b [(v, moved p n ε)] ρ) ∧
+                           (∀ ε, 0 < ε → ε < ε₀ → mem b [(v, moved p n (-ε))] ρ)) := by
+  constructor
+  · intro h
+    exact ⟨fun ε h0 hlt => h ε (by rw [abs_of_pos h0]; exact hlt),
+           fun ε h0 hlt => h (-ε) (by rw [abs_neg, abs_of_pos h0]; exact hlt)⟩
+  · intro h
+    exact ⟨fun ε h0 hlt => h ε (by rw [abs_of_pos h0]; exact hlt),
+           fun ε h0 hlt => h (-ε) (by rw [abs_neg, abs_of_pos h0]; exact hlt)⟩
+
+/-- squared triangle inequality without square roots: `‖a‖ ≤ R`, `‖b‖ ≤ e` ⇒ `‖a + b‖ ≤ R + e` (2-D) -/
+theorem sq_add_le (a1 a2 b1 b2 R e : K) (hR : 0 ≤ R) (he : 0 ≤ e) (ha : a1 ^ 2 + a2 ^ 2 ≤ R ^ 2)
+    (hb : b1 ^ 2 + b2 ^ 2 ≤ e ^ 2) : (a1 + b1) ^ 2 + (a2 + b2) ^ 2 ≤ (R + e) ^ 2 := by
+  have hcs : (a1 * b1 + a2 * b2) ^ 2 ≤ (R * e) ^ 2 := by
+    have h1 : (a1 * b1 + a2 * b2) ^ 2 ≤ (a1 ^ 2 + a2 ^ 2) * (b1 ^ 2 + b2 ^ 2) := by
+      nlinarith [sq_nonneg (a1 * b2 - a2 * b1)]
+    have h2 : (a1 ^ 2 + a2 ^ 2) * (b1 ^ 2 + b2 ^ 2) ≤ R ^ 2 * e ^ 2 :=
+      mul_le_mul ha hb (by positivity) (by positivity)
+    calc _ ≤ _ := h1
+      _ ≤ R ^ 2 * e ^ 2 := h2
+      _ = (R * e) ^ 2 := by ring
+  have hdot : a1 * b1 + a2 * b2 ≤ R * e := by
+    have := abs_le_of_sq_le_sq hcs (mul_nonneg hR he)
+    exact (abs_le.mp this).2
+  nlinarith
+
+/-- **Disc as partner.** If the point is inside the disc with distance margin `δ` from the circle line
+    (`‖p − c‖ ≤ r − δ`) then every step shorter than `δ` along a unit vector stays inside; if it is outside with
+    margin `δ` (`‖p − c‖ ≥ r + δ`) every such step stays outside. -/
+theorem circle_seg (v : String) (c r : PFun K) (ρ : Env K) (x y cx cy rr nx ny δ : K)
+    (hc : ∀ q, c.f ([(v, q)] ++ ρ) = [cx, cy]) (hr : ∀ q, r.f ([(v, q)] ++ ρ) = [rr])
+    (hn : nx * nx + ny * ny = 1) (hδ : 0 ≤ δ) :
+    (δ ≤ rr → (x - cx) ^ 2 + (y - cy) ^ 2 ≤ (rr - δ) ^ 2 → SegIn (.circle v c r) v [x, y] [nx, ny] ρ δ) ∧
+    (0 ≤ rr → (rr + δ) ^ 2 ≤ (x - cx) ^ 2 + (y - cy) ^ 2 → SegOut (.circle v c r) v [x, y] [nx, ny] ρ δ) := by
+  constructor
+  · intro hle hin e he
+    have hr0 : 0 ≤ rr := le_trans hδ hle
+    simp only [moved, List.zipWith_cons_cons, List.zipWith_nil_right]
+    rw [circle_mem_iff v c r ρ _ _ cx cy rr (hc _) (hr _) hr0]
+    have hb : (e * nx) ^ 2 + (e * ny) ^ 2 ≤ |e| ^ 2 := by
+      have : (e * nx) ^ 2 + (e * ny) ^ 2 = e ^ 2 * (nx * nx + ny * ny) := by ring
+      rw [this, hn, mul_one, sq_abs]
+    have := sq_add_le (x - cx) (y - cy) (e * nx) (e * ny) (rr - δ) |e| (by linarith) (abs_nonneg e) hin hb
+    have e1 : x + e * nx - cx = (x - cx) + e * nx := by ring
+    have e2 : y + e * ny - cy = (y - cy) + e * ny := by ring
+    rw [e1, e2]
+    have h3 : (rr - δ + |e|) ^ 2 ≤ rr ^ 2 := by
+      apply pow_le_pow_left₀ (by linarith [abs_nonneg e]) (by linarith)
+    linarith
+  · intro hr0 hout e he hm
+    simp only [moved, List.zipWith_cons_cons, List.zipWith_nil_right] at hm
+    rw [circle_mem_iff v c r ρ _ _ cx cy rr (hc _) (hr _) hr0] at hm
+    -- p − c = (q − c) + (−e n): ‖p − c‖ ≤ r + |e| < r + δ
+    have hb : (-(e * nx)) ^ 2 + (-(e * ny)) ^ 2 ≤ |e| ^ 2 := by
+      have : (-(e * nx)) ^ 2 + (-(e * ny)) ^ 2 = e ^ 2 * (nx * nx + ny * ny) := by ring
+      rw [this, hn, mul_one, sq_abs]
+    have := sq_add_le (x + e * nx - cx) (y + e * ny - cy) (-(e * nx)) (-(e * ny)) rr |e| hr0 (abs_nonneg e) hm hb
+    have e1 : x + e * nx - cx + -(e * nx) = x - cx := by ring
+    have e2 : y + e * ny - cy + -(e * ny) = y - cy := by ring
+    rw [e1, e2] at this
+    have h3 : (rr + |e|) ^ 2 < (rr + δ) ^ 2 := by
+      apply pow_lt_pow_left₀ (by linarith) (by linarith [abs_nonneg e]) (by norm_num)
+    linarith
+
+/-- **Interval as partner**: margin `δ` from both end points (inside) resp. from the nearer end point (outside). -/
+theorem interval_seg (v : String) (lb ub : PFun K) (ρ : Env K) (x l u n δ : K)
+    (hl : ∀ q, lb.f ([(v, q)] ++ ρ) = [l]) (hu : ∀ q, ub.f ([(v, q)] ++ ρ) = [u]) (hn : |n| = 1) :
+    (l + δ ≤ x → x + δ ≤ u → SegIn (.interval v lb ub) v [x] [n] ρ δ) ∧
+    (x + δ ≤ l ∨ u + δ ≤ x → SegOut (.interval v lb ub) v [x] [n] ρ δ) := by
+  have key : ∀ e : K, |e * n| = |e| := fun e => by rw [abs_mul, hn, mul_one]
+  constructor
+  · intro h1 h2 e he
+    simp only [moved, List.zipWith_cons_cons, List.zipWith_nil_right]
+    rw [interval_mem_iff v lb ub ρ _ l u (hl _) (hu _)]
+    have := abs_le.mp (le_of_eq (key e))
+    constructor <;> linarith [this.1, this.2]
+  · intro h e he hm
+    simp only [moved, List.zipWith_cons_cons, List.zipWith_nil_right] at hm
+    rw [interval_mem_iff v lb ub ρ _ l u (hl _) (hu _)] at hm
+    have := abs_le.mp (le_of_eq (key e))
+    rcases h with h | h <;> linarith [this.1, this.2, hm.1, hm.2]
+
+
+theorem SegIn.mono {D : Dom K} {v : String} {p n : List K} {ρ : Env K} {ε₀ ε₁ : K}
+    (h : SegIn D v p n ρ ε₀) (hle : ε₁ ≤ ε₀) : SegIn D v p n ρ ε₁ := fun e he => h e (lt_of_lt_of_le he hle)
+
+theorem SegOut.mono {D : Dom K} {v : String} {p n : List K} {ρ : Env K} {ε₀ ε₁ : K}
+    (h : SegOut D v p n ρ ε₀) (hle : ε₁ ≤ ε₀) : SegOut D v p n ρ ε₁ := fun e he => h e (lt_of_lt_of_le he hle)
+
+/-- **Holes.** For ANY domain `a` (arbitrarily nested) and a disc `b`: at a point of the circle line that lies inside `a`
+    with margin `ε₀` (`SegIn a`, e.g. from `circle_seg` / `seg_bool` by structural recursion over `a`), the model's
+    normal of `a ∖ b` is the FLIPPED radial vector and it is outward for `a ∖ b` for all steps below `min ε₀ 2r` —
+    provided the point is not accepted by `a`'s own boundary test (so that the code selects `b`). -/
+theorem cut_hole_outward (o' : Bool) (τ : Tol K) (a : Dom K) (v : String) (c r : PFun K) (ρ : Env K) (x y cx cy rr ε₀ : K)
+    (hc : ∀ q, c.f ([(v, q)] ++ ρ) = [cx, cy]) (hr : ∀ q, r.f ([(v, q)] ++ ρ) = [rr]) (hpos : 0 < rr)
+    (hon : (x - cx) ^ 2 + (y - cy) ^ 2 = rr ^ 2)
+    (hsel : bdryContains τ a [(v, [x, y])] ρ = some false)
+    (hin : SegIn a v [x, y] [(x - cx) / rr, (y - cy) / rr] ρ ε₀) :
+    normalAux o' τ (.cut a (.circle v c r)) [(v, [x, y])] ρ = some [-((x - cx) / rr), -((y - cy) / rr)] ∧
+    OutwardAt (.cut a (.circle v c r)) v [x, y] [-((x - cx) / rr), -((y - cy) / rr)] ρ (min ε₀ (2 * rr)) := by
+  obtain ⟨hn, _, hout⟩ := circle_normal_outward o' τ v c r ρ x y cx cy rr hc hr hpos hon
+  have hN : normalAux o' τ (.cut a (.circle v c r)) [(v, [x, y])] ρ = some [-((x - cx) / rr), -((y - cy) / rr)] := by
+    simp only [bdryContains] at hsel
+    simp only [normalAux, Option.bind_eq_bind, hsel, Option.bind_some, Bool.false_eq_true, if_false] at hn ⊢
+    rw [hn]; rfl
+  refine ⟨hN, ?_⟩
+  have := cut_outward_right a (.circle v c r) v [x, y] [(x - cx) / rr, (y - cy) / rr] ρ (min ε₀ (2 * rr))
+    (hout.mono (min_le_right _ _))
+    (((sep_of_seg a v [x, y] _ ρ _).2 (hin.mono (min_le_left _ _))).1)
+  simpa using this
+
+/-- **Attached discs.** For any domain `a` and a disc `b`: at a point of the circle line outside `a` with margin `ε₀`
+    the model's normal of `a ∪ b` is the radial vector and it is outward for the union. -/
+theorem union_disc_outward (o' : Bool) (τ : Tol K) (a : Dom K) (v : String) (c r : PFun K) (ρ : Env K) (x y cx cy rr ε₀ : K)
+    (hc : ∀ q, c.f ([(v, q)] ++ ρ) = [cx, cy]) (hr : ∀ q, r.f ([(v, q)] ++ ρ) = [rr]) (hpos : 0 < rr)
+    (hon : (x - cx) ^ 2 + (y - cy) ^ 2 = rr ^ 2)
+    (hsel : bdryContains τ a [(v, [x, y])] ρ = some false)
+    (hout' : SegOut a v [x, y] [(x - cx) / rr, (y - cy) / rr] ρ ε₀) :
+    normalAux o' τ (.union a (.circle v c r)) [(v, [x, y])] ρ = some [(x - cx) / rr, (y - cy) / rr] ∧
+    OutwardAt (.union a (.circle v c r)) v [x, y] [(x - cx) / rr, (y - cy) / rr] ρ (min ε₀ (2 * rr)) := by
+  obtain ⟨hn, _, hout⟩ := circle_normal_outward o' τ v c r ρ x y cx cy rr hc hr hpos hon
+  refine ⟨?_, ?_⟩
+  · simp only [bdryContains] at hsel
+    simp only [normalAux, Option.bind_eq_bind, hsel, Option.bind_some, Bool.false_eq_true, if_false] at hn ⊢
+    exact hn
+  · exact union_outward_right a (.circle v c r) v [x, y] _ ρ _ (hout.mono (min_le_right _ _))
+      (((sep_of_seg a v [x, y] _ ρ _).1 (hout'.mono (min_le_left _ _))).1)
+
+
+/-- non-vacuity of `par_normal_outward_bound`: clockwise 5×5 square with corners (0,0), (−4,3), (3,4) (det = −25), middle of
+    the edge `s = 0`, step ε = 1 (the other edge lines are at distance 5, 2.5, 2.5) -/
+example : ∃ n, normalAux true tolR (.par "x" (.const [0, 0]) (.const [-4, 3]) (.const [3, 4]))
+      [("x", [0 + 0 * (-4 - 0) + 1 / 2 * (3 - 0), 0 + 0 * (3 - 0) + 1 / 2 * (4 - 0)])] [] = some n ∧
+    ¬ mem (.par "x" (.const [0, 0]) (.const [-4, 3]) (.const [3, 4]))
+      [("x", moved [0 + 0 * (-4 - 0) + 1 / 2 * (3 - 0), 0 + 0 * (3 - 0) + 1 / 2 * (4 - 0)] n 1)] [] ∧
+    mem (.par "x" (.const [0, 0]) (.const [-4, 3]) (.const [3, 4]))
+      [("x", moved [0 + 0 * (-4 - 0) + 1 / 2 * (3 - 0), 0 + 0 * (3 - 0) + 1 / 2 * (4 - 0)] n (-1))] [] :=
+  par_normal_outward_bound sqrtOk_real tolR tolR_ok.1 tolR_ok.2 "x" _ _ _ [] 0 0 (-4) 3 3 4 0 (1 / 2) 5 5 1
+    (fun _ => rfl) (fun _ => rfl) (fun _ => rfl) (by norm_num) ⟨by norm_num, by norm_num⟩ ⟨by norm_num, by norm_num⟩
+    (Or.inl rfl) (by norm_num) (by norm_num) (by norm_num) (by norm_num) (by norm_num)
+    (Or.inl (by simp only [tolR]; norm_num)) (Or.inr (by norm_num [abs_of_neg])) (Or.inr (by norm_num [abs_of_neg]))
+    (Or.inr (by norm_num [abs_of_neg]))
+
+/-- non-vacuity of `par_normal_near_edge`: a point 5·10⁻⁶ (barycentric) inside the edge `s = 0` gets the edge's normal -/
+example : normalAux true tolR (.par "x" (.const [0, 0]) (.const [1, 2]) (.const [3, 1]))
+      [("x", [0 + 1 / 200000 * (1 - 0) + 1 / 2 * (3 - 0), 0 + 1 / 200000 * (2 - 0) + 1 / 2 * (1 - 0)])] [] =
+    normalAux true tolR (.par "x" (.const [0, 0]) (.const [1, 2]) (.const [3, 1]))
+      [("x", [0 + 0 * (1 - 0) + 1 / 2 * (3 - 0), 0 + 0 * (2 - 0) + 1 / 2 * (1 - 0)])] [] :=
+  (par_normal_near_edge true tolR tolR_ok.1 tolR_ok.2 "x" (.const [0, 0]) (.const [1, 2]) (.const [3, 1]) [] 0 0 1 2 3 1
+    (1 / 200000) (1 / 2) (fun _ => rfl) (fun _ => rfl) (fun _ => rfl) (by norm_num)).1
+    (by simp only [tolR]; rw [abs_of_pos (by norm_num)]; norm_num)
+
 /-! ### non-vacuity of the Boolean theorems on the executable instance `ℚ` -/
 
 section examples
@@ -774,6 +1255,35 @@ example : dot [(3 - 1) / 3, (1 - 0) / 3, (2 - 0) / (3 : Rat)] [(3 - 1) / 3, (1 -
     (fun _ => rfl) (fun _ => rfl) (by norm_num) (by norm_num)).2
 
 end examples
+
+section examples2
+local instance ratNoSqrt2 : HasSqrt Rat := ⟨fun x => x⟩
+
+/-- non-vacuity of `cut_hole_outward` / `SegIn`: square `[0,4]²` minus the unit disc around (2,2), rim point (3,2), margin 1 -/
+example : normalAux true tolQ exCut [("x", [3, 2])] [] = some [-((3 - 2) / 1), -((2 - 2) / 1)] ∧
+    OutwardAt exCut "x" [3, 2] [-((3 - 2) / 1), -((2 - 2) / 1)] [] (min 1 (2 * 1)) := by
+  refine cut_hole_outward true tolQ _ "x" (.const [2, 2]) (.const [1]) [] 3 2 2 2 1 1 (fun _ => rfl) (fun _ => rfl)
+    (by norm_num) (by norm_num) (by decide +kernel) ?_
+  intro e he
+  have := abs_lt.mp he
+  simp only [moved, List.zipWith_cons_cons, List.zipWith_nil_right]
+  refine ⟨_, _, 0, 0, 4, 0, 0, 4, (3 + e) / 4, 1 / 2, get_single _ _, rfl, rfl, rfl, ?_, ?_, ?_, ?_, ?_, ?_⟩
+  · linarith [this.1]
+  · linarith [this.2]
+  · norm_num
+  · norm_num
+  · ring
+  · ring
+
+/-- non-vacuity of `circle_seg`: the point (2,2) is inside the disc of radius 3 around (2,1) with margin 2, outside the disc of
+    radius 1 around (6,2) with margin 3 -/
+example : SegIn (.circle "x" (.const [2, 1]) (.const [3]) : Dom Rat) "x" [2, 2] [1, 0] [] 2 ∧
+    SegOut (.circle "x" (.const [6, 2]) (.const [1]) : Dom Rat) "x" [2, 2] [1, 0] [] 3 :=
+  ⟨(circle_seg "x" (.const [2, 1]) (.const [3]) [] 2 2 2 1 3 1 0 2 (fun _ => rfl) (fun _ => rfl) (by norm_num) (by norm_num)).1
+      (by norm_num) (by norm_num),
+   (circle_seg "x" (.const [6, 2]) (.const [1]) [] 2 2 6 2 1 1 0 3 (fun _ => rfl) (fun _ => rfl) (by norm_num) (by norm_num)).2
+      (by norm_num) (by norm_num)⟩
+end examples2
 
 section finding
 /-- a square-root function on `ℚ` that is exact on every radicand occurring in the witness below
